@@ -16,6 +16,7 @@ def judge (fam payload impl : String) : Verdict :=
   match fam with
   | "progress" => Progress.judge payload impl
   | "http2.conv" => Http.Driver.judgeH2 payload impl
+  | "http2.raw" => Http.Driver.judgeH2Raw payload impl
   | "http.conv" => Http.Driver.judgeConv payload impl
   | "kafka.conv" => Kafka.Driver.judgeConv payload impl
   | "kafka.raw" => Kafka.Driver.judgeRaw payload impl
